@@ -61,6 +61,16 @@ MUTANTS = [
      "            self.__sides = 'onesided'\n", "            pass\n"),
     ("m07_detrend_early_return_inverted", "C07", PSD,
      "        if detrend == self.__detrend:\n            return\n", "        if detrend != self.__detrend and self.__detrend is not None:\n            return\n"),
+    # process-global state: only the pristine-process reference can see it
+    ("m07_window_cache_keyed_by_name_only", "C07", "src/spectrum/periodogram.py",
+     [("        w = Window(r, window)   #same size as input data\n        w = w.data\n",
+       "        if window not in _WCACHE:\n            _WCACHE[window] = Window(r, window).data\n        w = _WCACHE[window]\n"),
+      ("def speriodogram(x,", "_WCACHE = {}\n\ndef speriodogram(x,")], None),
+    # both recompute guards of the D4/D5 repair removed (= pinned behaviour)
+    ("m07_sides_paths_convert_obsolete_psd", "C07", PSD,
+     [("            if self.modified is True:\n                # the stored PSD is obsolete: update it first (this resets\n"
+       "                # sides to the default) so that we convert an up-to-date PSD\n                self.psd\n", ""),
+      ("        if self.__psd is None or self.modified is True:\n            # make sure that the stored PSD (and its sides) is up-to-date\n            self.psd\n", "")], None),
     # ---- C06 -----------------------------------------------------------------
     ("m06_cshift_sign", "C06", TOOLS, "    a.rotate(offset)\n", "    a.rotate(-offset)\n"),
     ("m06_twosided_2_centerdc_odd_offbyone", "C06", TOOLS,
@@ -89,10 +99,13 @@ def plant(root, relpath, old, new):
     path = os.path.join(root, relpath)
     with open(path) as f:
         s = f.read()
-    if s.count(old) != 1:
-        raise RuntimeError("%s: pattern occurs %d times in %s" % (relpath, s.count(old), path))
+    pairs = old if isinstance(old, list) else [(old, new)]
+    for o, n in pairs:
+        if s.count(o) < 1 or (s.count(o) != 1 and len(o) > 40):
+            raise RuntimeError("%s: pattern occurs %d times in %s" % (relpath, s.count(o), path))
+        s = s.replace(o, n, 1)
     with open(path, "w") as f:
-        f.write(s.replace(old, new))
+        f.write(s)
 
 
 def run_mutants(args):
